@@ -88,7 +88,7 @@ func (m *intMap) Assign(key int, value Value) {
 			return
 		}
 		if m.pairs[i].key == key {
-			m.pairs[i].value = value.assign(m.pairs[i].value.t)
+			m.pairs[i].value = value.reassign(m.pairs[i].value.t)
 			return
 		}
 		i++
